@@ -353,6 +353,10 @@ def dict_method(I_, ref, o, name, args, kws, st, ctx, k, node):
       for s, v in I_.merge_all(res):
         k(s, v)
       return
+    from .models import is_value_key, dict_locate
+    if is_value_key(I_, key, st):
+      return dict_locate(I_, ref, key, st, ctx, lambda s_, hk_: k(s_, s_.obj(ref).data[hk_][1]),
+                         lambda s_: k(s_, default), node)
     hk = hashkey(key)
     if hk in data:
       return k(st, data[hk][1])
